@@ -736,3 +736,105 @@ Example set_version_list_computed :
   assign_flavors (Some [lit "Darwin"; lit "Linux"; lit "sparc"; lit "Darwin"]) [lit "Linux"; lit "Linux64"; lit "Darwin"]
   = [lit "Linux"; lit "Darwin"].
 Proof. repeat split; vm_compute; reflexivity. Qed.
+
+(* ------------------------------------------------------------------ tag assignments kept outside the
+   product's own database, and directories beside the stack *)
+From Eupsv Require Import Model.RecordsDirs Proofs.RecordsDirs Proofs.PathsSibling.
+
+(* Database.assignTag when the chain file is kept in ANY directory d (the product's own database, the
+   user's tag directory for a user tag, the database of another stack named by writeableDB): the
+   chain file of d afterwards reads back the version for every requested declared flavor and, for
+   every other flavor, what the chain file of d said before the call (c: that record as read before
+   the call; empty when d held no chain file) - so flavors tagged one after the other all keep
+   their entries; the chain files of all other directories are untouched. *)
+Theorem assign_tag_elsewhere_keeps_other_flavors who now name tag v req vls r own ut ud wr d cs c :
+  vf_read None None vls = Ok r ->
+  let declared := akeys (vf_info r) in
+  tag_target own ut ud wr = Ok d ->
+  (alookup d cs = None /\ c = {| cf_name := Some name; cf_tag := Some tag; cf_info := [] |}) \/
+  (exists ls, alookup d cs = Some ls /\ cf_read (Some name) (Some tag) ls = Ok c) ->
+  assign_flavors req declared <> [] ->
+  wf_cfile (cf_set_versions who now v (assign_flavors req declared) c) = true ->
+  exists cs' lines c2,
+    db_assign_tag_in who now name tag v req (Some vls) own ut ud wr cs = Ok cs' /\
+    alookup d cs' = Some lines /\
+    (forall d', d' <> d -> alookup d' cs' = alookup d' cs) /\
+    cf_read None None lines = Ok c2 /\
+    (forall f, In f (requested req declared) -> In f declared -> cf_get_version f c2 = Some v) /\
+    (forall f, ~ (In f (requested req declared) /\ In f declared) ->
+               cf_get_version f c2 = cf_get_version f c).
+Proof. apply db_assign_tag_in_text. Qed.
+Print Assumptions assign_tag_elsewhere_keeps_other_flavors.
+
+(* where the assignment is kept *)
+Theorem tag_target_is_one_of_three own ut ud wr d :
+  tag_target own ut ud wr = Ok d ->
+  (wr = Some d /\ d <> []) \/
+  ((wr = None \/ wr = Some []) /\ ut = true /\ ud = Some d /\ d <> []) \/
+  ((wr = None \/ wr = Some []) /\ ut = false /\ d = own).
+Proof. apply tag_target_cases. Qed.
+Print Assumptions tag_target_is_one_of_three.
+
+(* A directory beside the stack whose path begins with the stack's path as a string (stack2,
+   stack-extras next to stack) is outside the stack: utils.isSubpath compares whole components
+   (root itself, or root followed by a slash). *)
+Theorem sibling_with_common_prefix_is_outside root c s :
+  root <> [] -> ends_slash root = false -> ascii_eqb c_slash c = false ->
+  subpath_abs (root ++ c :: s) root = false /\
+  (forall s', subpath_abs (root ++ c_slash :: s') root = true).
+Proof.
+  intros Hn He Hc. split; [now apply subpath_abs_sibling|]. intro s'. now apply subpath_abs_below.
+Qed.
+Print Assumptions sibling_with_common_prefix_is_outside.
+
+(* hence VersionFile.write(trimDir) records a value that resolves there unchanged (absolute),
+   whatever links lead to the stack or to the value, also when the block is written again because
+   another flavor is added to the file (write runs the same loop over every block) *)
+Theorem sibling_value_written_unchanged fixed pe ex tc tr k (info : amap val) value c s :
+  alookup k info = Some (Some value) ->
+  let t := realpath (pe_links pe) (abs_from (pe_cwd pe) (tc :: tr)) in
+  t <> [] -> ends_slash t = false -> ascii_eqb c_slash c = false ->
+  realpath (pe_links pe) (abs_from (pe_cwd pe) value) = t ++ c :: s ->
+  trim_key fixed pe ex (Some (tc :: tr)) k info = Ok info.
+Proof. apply trim_key_sibling. Qed.
+Print Assumptions sibling_value_written_unchanged.
+
+Definition ex_vls : list str :=
+  [lit "FILE = version"; lit "PRODUCT = prod"; lit "VERSION = 1.0"; lit "Group:";
+   lit "   FLAVOR = Linux64"; lit "   PROD_DIR = Linux64/prod/1.0"; lit "   UPS_DIR = ups";
+   lit "   TABLE_FILE = prod.table"; lit "End:"; lit "Group:"; lit "   FLAVOR = Darwin";
+   lit "   PROD_DIR = Darwin/prod/1.0"; lit "   UPS_DIR = ups"; lit "   TABLE_FILE = prod.table";
+   lit "End:"].
+
+Definition tagged_in (d : str) (cs : res chaindirs) : list (option str) :=
+  match cs with
+  | Ok m => match alookup d m with
+            | Some ls => match cf_read None None ls with
+                         | Ok c => map (fun f => cf_get_version f c) [lit "Linux64"; lit "Darwin"]
+                         | Err _ => []
+                         end
+            | None => []
+            end
+  | Err _ => []
+  end.
+
+(* a user tag assigned to Linux64, then to Darwin, kept in the user's tag directory: both flavors read
+   back the version; a variant of assignTag that read the chain file of the product's own database and
+   wrote the result into the user's directory would lose the first flavor's entry *)
+Example assign_elsewhere_computed :
+  let asg f cs := db_assign_tag_in (lit "W") (lit "T") (lit "prod") (lit "mine") (lit "1.0") (Some [f])
+                    (Some ex_vls) (lit "/s/ups_db/prod") true (Some (lit "/u/tags/prod")) None cs in
+  let bad f cs := db_assign_tag_at (lit "W") (lit "T") (lit "prod") (lit "mine") (lit "1.0") (Some [f])
+                    (Some ex_vls) (lit "/s/ups_db/prod") (lit "/u/tags/prod") cs in
+  tagged_in (lit "/u/tags/prod") (bind (asg (lit "Linux64") []) (asg (lit "Darwin")))
+    = [Some (lit "1.0"); Some (lit "1.0")] /\
+  tagged_in (lit "/s/ups_db/prod") (bind (asg (lit "Linux64") []) (asg (lit "Darwin"))) = [] /\
+  tagged_in (lit "/u/tags/prod") (bind (bad (lit "Linux64") []) (bad (lit "Darwin")))
+    = [None; Some (lit "1.0")].
+Proof. repeat split; vm_compute; reflexivity. Qed.
+
+Example sibling_computed :
+  subpath_abs (lit "/x/stack2/Linux64/p/1.0") (lit "/x/stack") = false /\
+  subpath_abs (lit "/x/stack-extras/p/1.0") (lit "/x/stack") = false /\
+  subpath_abs (lit "/x/stack/Linux64/p/1.0") (lit "/x/stack") = true.
+Proof. repeat split; vm_compute; reflexivity. Qed.
